@@ -6,6 +6,7 @@ from . import refparser, worker
 from .common import digest, pmap
 
 NAMES = ["exec_path", "lib_dirs", "name", "conf", "data_dirs", "bin_x", "v1", "v2"]
+BUILTIN = ["bin", "lib", "sbin"]      # written the same way in the library table and in the shipped tunables (value lists are compared as written)
 LITS = ["/usr/bin/foo", "/opt/app", "/usr/lib/app/", "/etc/app.d", "/{a,b}", "/srv/[0-9]*", "/x//y", "bin", "lib{,64}", "/opt/app/", "/"]
 
 
@@ -19,6 +20,11 @@ def gen_case(rng, i, stratum):
         lines.append("abi <abi/3.0>,")
     if rng.random() < 0.3:
         lines.append("")
+    builtin = stratum == "builtin"
+    if builtin:
+        # the file is resolved on top of the library's built-in copy of the shipped tunables (as the build does): references to,
+        # and appends to, variables of tunables/global
+        lines.append("include <tunables/global>")
     nvars = rng.randint(1, 6)
     names = rng.sample(NAMES, nvars)
     if "exec_path" in names:
@@ -33,7 +39,10 @@ def gen_case(rng, i, stratum):
         refs = defined[:defined.index(exclude)] if exclude in defined else list(defined)
         for _ in range(n):
             r = rng.random()
-            if allow_refs and refs and r < 0.5:
+            if builtin and allow_refs and r < 0.25:
+                parts.append("@{%s}" % rng.choice(BUILTIN))
+                parts.append(rng.choice(["/sub", "/p%d" % i, "/{c,d}"]))
+            elif allow_refs and refs and r < 0.5:
                 parts.append("@{%s}" % rng.choice(refs))
                 if rng.random() < 0.5:
                     parts.append(rng.choice(["/sub", "/", "-x", "/{c,d}", "//z"]))
@@ -63,6 +72,10 @@ def gen_case(rng, i, stratum):
         counts[nm] = tot
         return out
 
+    if builtin and rng.random() < 0.4:
+        bv = rng.choice(BUILTIN)
+        lines.append("@{%s} += /opt/p%d/%s" % (bv, i, bv))
+        counts[bv] = 2
     for nm in names:
         vals = [value() for _ in range(rng.randint(1, 3))]
         if rng.random() < 0.15 and defined:
@@ -155,7 +168,7 @@ def gen_bounded(rng, i, stratum, limit=200):
     return text, tag, att
 
 
-def parser_expand(text, att):
+def parser_expand(text, att, ov=None):
     """Reference expansion: {name: set(values)} or ('error', message)."""
     ptxt = text
     if att:
@@ -165,13 +178,13 @@ def parser_expand(text, att):
     used = sorted(set(re.findall(r"^@\{(\w+)\}\s*\+?=", ptxt, re.M)))
     body = "".join("  /verif/@{%s} r,\n" % u for u in used)
     ptxt = re.sub(r"\{\n  /etc/x r,\n\}\n$", "{\n" + body + "}\n", ptxt)
-    rc, vals, err = refparser.expanded_variables(ptxt)
+    rc, vals, err = refparser.expanded_variables(ptxt, ov=ov if "include <tunables/global>" in ptxt else None)
     if rc is None:
         return ("timeout", "")
     msg = " ".join(l for l in err.split("\n") if l and not l.startswith("Cache") and not re.match(r"^@\w+ =", l))
     if rc != 0 or re.search(r"referenced recursively|references undefined variable|failure expanding", msg):
         return ("error", msg[-200:])
-    return ("ok", {k: set(collapse(v) for v in vs) for k, vs in vals.items()})
+    return ("ok", {k: set(collapse(v) for v in vs) for k, vs in vals.items() if k in used})
 
 
 def collapse(v):
@@ -188,11 +201,13 @@ def run(ctx):
     ncyc = 12 if ctx.tier == "quick" else 120
     ctx.rule = ("each generated preamble (0-8 comments, abi before/after, 1-6 variables, += anywhere after the definition, nested and repeated "
                 "references, alternations, '//'; error strata: undefined, self-reference, += self-reference, cycles of length 2-3, second "
-                "definition, += before =) is one case: Parse+Resolve of the real library (worker, CPU and memory limited, cycle cases one per "
+                "definition; files resolved on top of the built-in tunables table that reference and append to shipped variables) is one case: Parse+Resolve of the real library (worker, CPU and memory limited, cycle cases one per "
                 "process) vs apparmor_parser -d -D expanded-variables on the same text: same value sets per variable and attachment, same "
                 "accept/reject, and every non-variable preamble entry kept. Non-trivial = preambles with a += or a reference")
     # ("+= before =" is not among the errors the statement lists: not generated)
-    strata = ["plain"] * 12 + ["undefined", "self", "self-append", "redefine"]
+    strata = ["plain"] * 9 + ["builtin"] * 3 + ["undefined", "self", "self-append", "redefine"]
+    from .c09 import source_overlay
+    ov = source_overlay(ctx)
     cases = []
     for i in range(n):
         st = rng.choice(strata)
@@ -201,13 +216,14 @@ def run(ctx):
     for i in range(ncyc):
         st = rng.choice(["cycle2", "cycle3"])
         cyc.append((st,) + gen_bounded(rng, n + i, st))
-    refs = pmap(lambda c: parser_expand(c[1], c[3]), cases + cyc)
+    refs = pmap(lambda c: parser_expand(c[1], c[3], ov), cases + cyc)
     # library: resolve=False (to know the preamble before) and resolve=True
     def lib_batch(chunk):
         reqs = []
         for i, c in enumerate(chunk):
-            reqs.append({"id": "%da" % i, "do": "file", "text": c[1]})
-            reqs.append({"id": "%db" % i, "do": "file", "text": c[1], "resolve": True})
+            dflt = c[0] == "builtin"
+            reqs.append({"id": "%da" % i, "do": "file", "text": c[1], "defaults": dflt})
+            reqs.append({"id": "%db" % i, "do": "file", "text": c[1], "resolve": True, "defaults": dflt})
         return worker.run_isolating(ctx, "aa", reqs, lambda r, e: None, timeout=300, cpu_s=30, vmem_kb=2 << 20)
 
     chunks = [cases[i:i + 300] for i in range(0, len(cases), 300)]
